@@ -57,15 +57,20 @@ class G05:
     def __init__(self, rng, max_depth=3):
         self.r = rng
         self.G = []          # global variable types
-        self.F = []          # ("one"|"oneD"|"two", params, ret)
+        self.F = []          # ("one"|"oneD"|"two", params, ret, body is enum-ish)
+        self.enum_vars = set()
         self.D = max_depth
 
     def lit(self, t):
         return f"(lit {t} {self.r.below(10)})"
 
-    def expr(self, t, d, env):
+    def expr(self, t, d, env, op=True):
+        """an expression of exact type t. `op` = operand position (operator operand, call argument, attribute receiver, condition):
+        there the generator uses neither if-expressions nor variables/functions defined by one — the real checker gives those
+        enum/union types on which it is incomplete (it rejects `v7 + v7`, `f0() + s`, `if(c, do(-1), do(v5)) - v1` for such
+        operands), and C05 needs base programs the checker accepts. If-expressions still nest as statement roots and branches."""
         r = self.r
-        vs = [i for i, vt in enumerate(env) if vt == t]
+        vs = [i for i, vt in enumerate(env) if vt == t and not (op and i in self.enum_vars)]
         if d <= 0 or r.chance(1, 5):
             if vs and r.chance(2, 3):
                 return f"(var {r.pick(vs)})"
@@ -73,22 +78,22 @@ class G05:
         k = r.below(10)
         d -= 1
         if k < 2:
-            fs = [(j, f) for j, f in enumerate(self.F) if f[2] == t]
+            fs = [(j, f) for j, f in enumerate(self.F) if f[2] == t and not (op and f[3])]
             if fs:
                 j, f = r.pick(fs)
                 if f[0] == "oneD" and r.chance(1, 3):
                     return f"(call0 {j})"
                 args = [self.expr(self.argty(p), d, env) for p in f[1]]
                 return f"(call{len(args)} {j} " + " ".join(args) + ")"
-        if k < 4 and t != "bool":
+        if k < 5 and t != "bool" and not op:
             # (Bool-valued if-expressions are left out: the checker does not accept their type `{True} or {False}` as an `if` condition)
             c = self.expr("bool", d, env)
-            return f"(ite {c} {self.expr(t, d, env)} {self.expr(t, d, env)})"
+            return f"(ite {c} {self.expr(t, d, env, op=False)} {self.expr(t, d, env, op=False)})"
         if t == "nat":
             if k < 7:
                 return f"(bin {r.pick(['add', 'mul'])} {self.expr('nat', d, env)} {self.expr('nat', d, env)})"
             if k == 7:
-                return f"(attr {self.expr(r.pick(['nat', 'int']), d, env)} 0)"
+                return f"(attr {self.expr(r.pick(['nat', 'int']), 0, env)} 0)"
         if t == "int":
             if k < 6:
                 return f"(bin sub {self.expr(r.pick(['nat', 'int']), d, env)} {self.expr(r.pick(['nat', 'int']), d, env)})"
@@ -96,7 +101,7 @@ class G05:
                 a, b = r.pick([("int", "int"), ("int", "nat"), ("nat", "int")])
                 return f"(bin {r.pick(['add', 'mul'])} {self.expr(a, d, env)} {self.expr(b, d, env)})"
             if k == 7:
-                return f"(attr {self.expr('int', d, env)} 2)"
+                return f"(attr {self.expr('int', 0, env)} 2)"
         if t == "bool":
             if k < 6:
                 a = r.pick(["nat", "int", "nat", "int", "str"])
@@ -105,13 +110,25 @@ class G05:
             if k < 8:
                 return f"(bin and {self.expr('bool', d, env)} {self.expr('bool', d, env)})"
             if k == 8:
-                return f"(attr {self.expr('str', d, env)} 1)"
+                return f"(attr {self.expr('str', 0, env)} 1)"
         if t == "str":
             if k < 8:
                 return f"(bin add {self.expr('str', d, env)} {self.expr('str', d, env)})"
         if vs and r.chance(1, 2):
             return f"(var {r.pick(vs)})"
         return self.lit(t)
+
+    def enumish(self, e):
+        """the root of e is an if-expression, an enum variable or a call of a function whose body is one"""
+        if e.startswith("(ite "):
+            return True
+        m = re.match(r"\(var (\d+)\)$", e)
+        if m:
+            return int(m.group(1)) in self.enum_vars
+        m = re.match(r"\(call[012] (\d+)", e)
+        if m:
+            return self.F[int(m.group(1))][3]
+        return False
 
     def argty(self, p):
         """an argument type that is a subtype of the parameter type"""
@@ -130,29 +147,40 @@ class G05:
             k = r.below(12)
             if k < 3:
                 t = r.pick(TYS)
-                stmts.append(f"(defv {self.expr(t, self.D, self.G)})")
+                e = self.expr(t, self.D, self.G, op=False)
+                if self.enumish(e):
+                    self.enum_vars.add(len(self.G))
+                stmts.append(f"(defv {e})")
                 self.G.append(t)
             elif k < 5:
-                stmts.append(f"(print {self.expr(r.pick(TYS), self.D, self.G)})")
+                stmts.append(f"(print {self.expr(r.pick(TYS), self.D, self.G, op=False)})")
             elif k < 7:
                 p, ret = r.pick(TYS), r.pick(TYS)
-                stmts.append(f"(fun1 {p} {self.expr(ret, self.D, self.G + [p])})")
-                self.F.append(("one", [p], ret))
+                e = self.expr(ret, self.D, self.G + [p], op=False)
+                stmts.append(f"(fun1 {p} {e})")
+                self.F.append(("one", [p], ret, self.enumish(e)))
             elif k == 7:
                 p, q, ret = r.pick(TYS), r.pick(TYS), r.pick(TYS)
-                stmts.append(f"(fun2 {p} {q} {self.expr(ret, self.D, self.G + [p, q])})")
-                self.F.append(("two", [p, q], ret))
+                e = self.expr(ret, self.D, self.G + [p, q], op=False)
+                stmts.append(f"(fun2 {p} {q} {e})")
+                self.F.append(("two", [p, q], ret, self.enumish(e)))
             elif k == 8:
                 p, ret = r.pick(TYS), r.pick(TYS)
-                stmts.append(f"(fun1d {p} {self.expr(self.argty(p), 2, self.G)} {self.expr(ret, self.D, self.G + [p])})")
-                self.F.append(("oneD", [p], ret))
+                e = self.expr(ret, self.D, self.G + [p], op=False)
+                stmts.append(f"(fun1d {p} {self.expr(self.argty(p), 2, self.G)} {e})")
+                self.F.append(("oneD", [p], ret, self.enumish(e)))
             elif k == 9:
                 p, ret = r.pick(TYS), r.pick(TYS)
-                stmts.append(f"(lam {p} {self.expr(ret, self.D, self.G + [p])})")
-                self.F.append(("one", [p], ret))
+                e = self.expr(ret, self.D, self.G + [p], op=False)
+                stmts.append(f"(lam {p} {e})")
+                self.F.append(("one", [p], ret, self.enumish(e)))
             else:
-                stmts.append(f"(forp {1 + r.below(3)} {self.expr(r.pick(TYS), self.D, self.G + ['nat'])})")
-        stmts.append(f"(print {self.expr(r.pick(TYS), self.D, self.G)})")
+                # the loop variable has an interval type: like the enum-typed terms it is used only outside operand positions (the
+                # checker rejects `(i * i) * (i * i)` as a Nat argument and ACCEPTS `(i + 2) + (i * "s0")`: corpus/C05, recorded)
+                self.enum_vars.add(len(self.G))
+                stmts.append(f"(forp {1 + r.below(3)} {self.expr(r.pick(TYS), self.D, self.G + ['nat'], op=False)})")
+                self.enum_vars.discard(len(self.G))
+        stmts.append(f"(print {self.expr(r.pick(TYS), self.D, self.G, op=False)})")
         return "(prog " + " ".join(stmts) + ")"
 
 
@@ -193,9 +221,9 @@ def parse_model(col):
         if kind == "base":
             base = {"welltyped": h[0] == "true", "size": int(h[1]), "src": src}
         else:
-            m = re.match(r"(\w+) (\d+) (\d+) \(([\d ]*)\) (true|false)", head.strip())
+            m = re.match(r"(\w+) (\d+) (\d+) \(([\d ]*)\) (true|false) (\S+)", head.strip())
             injs.append({"inj": m.group(1), "stmt": int(m.group(2)), "slot": int(m.group(3)),
-                         "path": [int(x) for x in m.group(4).split()], "spec_ill": m.group(5) == "true", "src": src})
+                         "path": [int(x) for x in m.group(4).split()], "spec_ill": m.group(5) == "true", "k": m.group(6), "src": src})
     return base, injs
 
 
@@ -227,13 +255,10 @@ def cli_run(erg, cases, jobs=4):
 
 
 def known_for(ctx, item, verdict):
+    """an accepted injected program is explained by a listed finding only if the Lean class predicate put it in that class"""
     for e in ctx.known_findings():
-        m = e.get("match", {})
-        if m.get("injector") and m["injector"] != item["inj"]:
-            continue
-        if m.get("src_regex") and not re.search(m["src_regex"], item["src"]):
-            continue
-        return e
+        if item.get("k") == e["id"]:
+            return e
     return None
 
 
@@ -304,6 +329,7 @@ def run(ctx):
                      if not verd.get(cid, "").startswith("accepted") and not verd.get(cid, "").startswith("crash")]
     bad_bases = {cid for cid, _, _ in base_rejected + base_crashed}
     accepted, crashed, no_errors = [], [], []
+    known_crash = {}
     hist, err_kinds, depth_hist = {}, {}, {}
     nontrivial = 0
     for it in injected:
@@ -325,7 +351,11 @@ def run(ctx):
             kk = k.group(1) if k else "?"
             err_kinds[kk] = err_kinds.get(kk, 0) + 1
         else:
-            crashed.append((it, v))
+            ke = next((e for e in ctx.known_findings() if e.get("match", {}).get("crash_contains") and e["match"]["crash_contains"] in v), None)
+            if ke:
+                known_crash.setdefault(ke["id"], []).append(it)
+            else:
+                crashed.append((it, v))
     # ------------------------------------------------------------------ CLI sample: exit status, diagnostics, non-execution
     pool = [it for it in injected if it["base"] not in bad_bases]
     sample = []
@@ -339,6 +369,10 @@ def run(ctx):
     for it in sample:
         c = cli[it["id"]]
         if c["rc"] == 0 or c["errors"] < 1 or c["marker"] or c["panic"]:
+            if verd.get(it["id"], "").startswith("accepted") and known_for(ctx, it, "accepted"):
+                continue        # already judged (and explained by a listed finding) through the in-process verdict
+            if any(it in v for v in known_crash.values()):
+                continue
             cli_bad.append((it, c))
     # (an accepted base program may still stop with a run-time exception after the marker: not this property's concern)
     marker_ok = all(cli[cid]["marker"] for cid, _ in base_sample)
@@ -366,11 +400,15 @@ def run(ctx):
             known_hits.setdefault(e["id"], []).append(it)
         else:
             unexplained.append(it)
+    extra["injected_known_panics"] = {k_: len(v_) for k_, v_ in known_crash.items()}
     for e in ctx.known_findings():
         w = e.get("witness_program")
         if w:
             v = front_end(bindir, [("k", w)]).get("k", "")
-            if v.startswith("accepted"):
+            cc = e.get("match", {}).get("crash_contains")
+            if cc and cc in v:
+                ctx.print_known(e, f"{e.get('summary', '')} [witness still panics: {v[:80]}; {len(known_crash.get(e['id'], []))} generated program(s) of this class in this run]")
+            elif v.startswith("accepted"):
                 ctx.print_known(e, f"{e.get('summary', '')} [witness still accepted; {len(known_hits.get(e['id'], []))} generated program(s) of this class in this run]")
     if unexplained:
         it = unexplained[0]
@@ -413,3 +451,41 @@ def replay(ctx, path):
     bad = not v.startswith("rejected")
     print("still failing" if bad else "no longer failing")
     raise SystemExit(1 if bad else 0)
+
+
+def soak(seed0, nseeds, n):
+    """python3 -m checks.c05 soak <first seed> <seeds> <base programs per seed>: all positions, in-process front end only"""
+    ok_h, _, bindir = core.cargo_build(["c34"])
+    ctx = core.Ctx("C05", "quick", 0)
+    for seed in range(seed0, seed0 + nseeds):
+        rows = [(f"b{i}", G05(fraggen.Rng(seed * 1000003 + 5000 + i), max_depth=2 + (i % 2)).program(), "-") for i in range(n)]
+        _, mrows, _ = core.run_model("C05", rows)
+        cases, items = [], {}
+        for m in mrows:
+            base, injs = parse_model(m[1])
+            if not base or not base["welltyped"]:
+                continue
+            cases.append((m[0], base["src"]))
+            for j, it in enumerate(injs):
+                it["id"] = f"{m[0]}.{j}"
+                items[it["id"]] = it
+                cases.append((it["id"], it["src"]))
+        verd = front_end(bindir, cases)
+        bad_base = {cid for cid, _ in cases if "." not in cid and not verd.get(cid, "").startswith("accepted")}
+        acc = [it for cid, it in items.items() if cid.split(".")[0] not in bad_base and verd.get(cid, "").startswith("accepted")]
+        unk = [it for it in acc if not known_for(ctx, it, "accepted")]
+        crash = [cid for cid, it in items.items() if verd.get(cid, "").startswith("crash") and cid.split(".")[0] not in bad_base]
+        print(f"seed {seed}: bases {n - len(bad_base)}/{n} usable ({sorted(verd.get(c, '')[:40] for c in bad_base)}), injected {len(items)}, "
+              f"accepted {len(acc)} (unexplained {len(unk)}), crashes {len(crash)}", flush=True)
+        for it in unk[:3]:
+            print("UNEXPLAINED", it["inj"], it["stmt"], it["slot"], it["path"])
+            print(it["src"])
+        for c in crash[:2]:
+            print("CRASH", verd[c][:200])
+            print(items[c]["src"])
+
+
+if __name__ == "__main__":
+    import sys
+    if len(sys.argv) >= 5 and sys.argv[1] == "soak":
+        soak(int(sys.argv[2]), int(sys.argv[3]), int(sys.argv[4]))
